@@ -46,10 +46,7 @@ func TestC03(t *testing.T) {
 		t.Skip("child mode")
 	}
 	r := vcore.Start(t, "C03")
-	cvs := allCurves[:3]
-	if r.Thorough() {
-		cvs = allCurves
-	}
+	cvs := allCurves // both tiers: every curve's back-end is a separate generated copy
 	type batch struct {
 		c       ecc.ID
 		backend string
@@ -183,8 +180,8 @@ func TestC03Child(t *testing.T) {
 	c := &child{r: r, curve: curve, backend: os.Getenv("VERIF_C03_BACKEND"), field: curve.ScalarField()}
 	c.rng = r.Rand(curve.String() + "/" + c.backend)
 	var cs []tcirc
-	cs = append(cs, c.programCircuits(r.Pick(14, 70))...)
-	cs = append(cs, c.specCircuits(r.Pick(8, 40))...)
+	cs = append(cs, c.programCircuits(r.Pick(8, 70))...)
+	cs = append(cs, c.specCircuits(r.Pick(5, 40))...)
 	if r.Thorough() {
 		cs = append(cs, c.scenarioCircuits()...)
 	}
